@@ -87,8 +87,9 @@ type Program struct {
 	mfOnce sync.Once
 	mf     []*ssa.Function
 
-	renamed    map[*types.Func]string // renamed unexported functions: current object -> recorded key
-	byRecorded map[string]*types.Func
+	renamed          map[*types.Func]string // renamed unexported functions: current object -> recorded key
+	byRecorded       map[string]*types.Func
+	byRecordedGlobal map[string]types.Object
 
 	fileOf map[*token.File]*ast.File
 }
@@ -219,6 +220,7 @@ func Load(cfgID string, o Opts) (*Program, error) {
 		}
 	}
 	p.resolveRenames()
+	p.resolveGlobalRenames()
 	if o.SSA {
 		prog, _ := ssautil.AllPackages(roots, ssa.InstantiateGenerics)
 		prog.Build()
@@ -287,6 +289,9 @@ func (p *Program) Obj(rel, name string) types.Object {
 	}
 	if f := p.byRecorded[rel+"|"+name]; f != nil {
 		return f // renamed unexported function
+	}
+	if o := p.byRecordedGlobal[rel+"|"+name]; o != nil {
+		return o // renamed unexported variable / constant
 	}
 	return nil
 }
